@@ -109,6 +109,28 @@ def gen_cases(ctx, per_method):
         for declen in (r.choice([300, 2000]), 70000):
             out.append(Case(S.dec_op("lh1", declen, r.choice([0, 1, 3]), -1, S.schedule(r, min(declen, 20000)), data), judge=judge(declen),
                             tags={"m=lh1", "all-symbols"}))
+    # valid static-Huffman streams made of long copies over a SINGLE-CODE offset table (an offset costs no bits), cut at every byte:
+    # the data ends inside the extra length bits of a copy code while the few bits left over still decode – the "no more input"
+    # answer of every sub-step must stop the command (for -lk7- the extra length bits are a step of their own)
+    from vlib import lhnewgen as LG
+    ldescs = []
+    for i in range(12 if per_method < 400 else 80):
+        meth = "lk7" if i % 2 == 0 else r.choice(["lh4", "lh5", "lh6", "lh7", "lhx"])
+        lhark = LG.FMT[meth][4]
+        cmds = ["L%02x" % r.randrange(256) for _ in range(r.choice([1, 3]))]
+        dist = r.choice([0, 0, 1, 3])
+        for _ in range(r.choice([6, 20, 60])):
+            n = r.choice([11, 12, 15, 16, 23, 24, 40, 100, 200, 256] + ([257, 300, 400, 513, 514] if lhark else [3, 4]))
+            cmds.append("C%d.%d" % (dist, n))
+        ldescs.append((meth, LG.gen_block(r, meth, cmds, ("huff", "single", r.choice(["huff", "single"])))))
+    lser, _ = core.run_lines_parallel([core.lhv_path()], ["lhnser %s %s" % (m, d) for m, d in ldescs])
+    for (meth, d), hx in zip(ldescs, lser):
+        if not hx.startswith("ok") or len(hx.split()) < 2:
+            continue
+        data = bytes.fromhex(hx.split()[1])
+        for cut in range(max(1, len(data) - 40), len(data) + 1):
+            out.append(Case(S.dec_op(meth, 70000, r.choice([0, 0, 1]), -1, [r.choice([70000, 4096, 1])], data[:cut]), judge=judge(70000),
+                            tags={"m=" + meth, "valid-long-copies-cut"}))
     if ctx.tier == "thorough" and not os.environ.get("VERIF_NO_FUZZ"):
         out += fuzz_cases(ctx, int(os.environ.get("VERIF_FUZZ_SECONDS", "120")))
     return out
